@@ -58,9 +58,9 @@ def fuse_sections(code: list[L.LNode], name: str) -> list[L.LNode]:
                 annotations = section.annotations
 
     # Remove duplicated inputs
-    input = list(set(input))
+    input = list(dict.fromkeys(input))
     # Remove duplicated outputs
-    output = list(set(output))
+    output = list(dict.fromkeys(output))
 
     section = L.Section(name, statements, declarations, input, output, annotations)
 
